@@ -51,8 +51,32 @@ pub fn any_char() -> BoxedStrategy<char> {
         2 => prop::sample::select(vec!['\r', '\t', '\u{A0}', '\u{2028}', '\u{3000}', '\u{85}', '\u{200B}', '\u{0B}', '\u{0C}']),
         2 => prop::sample::select(vec!['a', 'Z', '0', '_', '[', ']', '#', '-']),
         1 => prop::sample::select(vec!['你', 'こ', 'д', '😀', '\u{0}', '\u{10FFFF}', 'é']),
+        // code points adjacent (±1, ±2) to every significant character: tables and ranges in a parser go wrong at their edges
+        2 => prop::sample::select(neighbours()),
     ]
     .boxed()
+}
+
+/// the code points next to every character the grammar gives a meaning to (and not themselves significant)
+pub fn neighbours() -> Vec<char> {
+    let mut sig: Vec<char> = Vec::new();
+    sig.extend(ONE_SYLLABLE.iter());
+    sig.extend(STARTS.iter());
+    sig.extend(ENDS.iter());
+    sig.extend(HEARTS.iter());
+    sig.extend(DOTS3.iter());
+    sig.extend(['.', '?', '!', '\n', ' '].iter());
+    let mut out = Vec::new();
+    for &c in &sig {
+        for d in [-2i32, -1, 1, 2] {
+            if let Some(n) = char::from_u32((c as i32 + d) as u32) {
+                if !sig.contains(&n) && !out.contains(&n) {
+                    out.push(n);
+                }
+            }
+        }
+    }
+    out
 }
 
 fn chars_to_string(v: Vec<char>) -> String {
